@@ -1,6 +1,7 @@
 package props
 
 import (
+	"encoding/json"
 	"fmt"
 	"math/big"
 	"os"
@@ -236,6 +237,69 @@ func c11Scenarios() []scenario {
 
 var overdraftOn = map[string]struct{}{interpreter.ExperimentalOverdraftFunctionFeatureFlag: {}}
 
+type oneshotCase struct {
+	Text string                       `json:"text"`
+	Vars map[string]string            `json:"vars"`
+	Bal  map[string]map[string]string `json:"bal"`
+	Meta env.Meta                     `json:"meta"`
+}
+
+func balToStrings(b env.Bal) map[string]map[string]string {
+	out := map[string]map[string]string{}
+	for a, m := range b {
+		out[a] = map[string]string{}
+		for k, v := range m {
+			out[a][k] = v.String()
+		}
+	}
+	return out
+}
+
+func init() {
+	mc.Oneshot = func() {
+		var c oneshotCase
+		if err := json.NewDecoder(os.Stdin).Decode(&c); err != nil {
+			fmt.Println("oneshot: bad input:", err)
+			return
+		}
+		bal := env.Bal{}
+		for a, m := range c.Bal {
+			bal[a] = map[string]*big.Int{}
+			for k, v := range m {
+				n, _ := new(big.Int).SetString(v, 10)
+				bal[a][k] = n
+			}
+		}
+		pr, ok := parseQuiet(c.Text)
+		if !ok {
+			fmt.Println("oneshot: unparsable")
+			return
+		}
+		fmt.Println("ONESHOT " + outSig(RunReal(pr, c.Vars, env.New(env.Exact, bal, c.Meta), overdraftOn)))
+	}
+}
+
+// freshResult: the result of one run in a process that has executed nothing else.
+func freshResult(sc scenario, bal env.Bal) (string, bool) {
+	exe, err := os.Executable()
+	if err != nil {
+		return "", false
+	}
+	in, _ := json.Marshal(oneshotCase{Text: sc.Text, Vars: sc.Vars, Bal: balToStrings(bal), Meta: sc.Meta})
+	cmd := exec.Command(exe, "oneshot")
+	cmd.Stdin = strings.NewReader(string(in))
+	outb, err := cmd.Output()
+	if err != nil {
+		return "", false
+	}
+	for _, l := range strings.Split(string(outb), "\n") {
+		if strings.HasPrefix(l, "ONESHOT ") {
+			return strings.TrimPrefix(l, "ONESHOT "), true
+		}
+	}
+	return "", false
+}
+
 func runC11(w *mc.Worker) {
 	scs := c11Scenarios()
 	caseOf := func(sc scenario) Case {
@@ -284,7 +348,8 @@ func runC11(w *mc.Worker) {
 					report("the metadata maps obtained from the store", fpMeta, a)
 				}
 				if a := fingerprint(&pr); a != fpTree {
-					report("the parsed script", fpTree, a)
+					// not an input the property names: recorded, judged through its effects below
+					w.Count("parsed-tree-fingerprint-changed", 1)
 				}
 				// same inputs, same store object, again
 				o2 := RunReal(pr, vars, st, flags)
@@ -293,6 +358,30 @@ func runC11(w *mc.Worker) {
 					w.Violation("C11.second-run-differs:"+md.String(), "running the same script with the same inputs a second time returned a different result", len(sc.Text), c)
 				}
 				if md == env.Exact {
+					// history-free reference: the same run in a process that has executed nothing else,
+					// and again here after a run of the SAME parsed script on different inputs
+					b2 := env.CloneBal(sc.Bal)
+					for _, m := range b2 {
+						for as, v := range m {
+							m[as] = new(big.Int).Add(v, bi(4))
+						}
+					}
+					for _, bb := range []env.Bal{b2, sc.Bal} {
+						want, ok := freshResult(sc, bb)
+						if !ok {
+							w.Count("harness_errors", 1)
+							w.Rep.Notes = append(w.Rep.Notes, "oneshot subprocess failed")
+							break
+						}
+						got := outSig(RunReal(pr, copyVars(sc.Vars), env.New(env.Exact, bb, sc.Meta), overdraftOn))
+						w.Eval(fmt.Sprintf("fresh|%s|%s", sc.Text, balStr(bb)), true, "history-free "+strings.SplitN(got, ":", 2)[0])
+						if got != want {
+							c.Observed = "after earlier runs of the same parsed script in this process: " + got
+							c.Expected = "in a fresh process: " + want
+							c.Balances = balStr(bb)
+							w.Violation("C11.depends-on-history", "the result of a run depends on earlier runs (state kept in the parsed script or in package-level variables)", len(sc.Text), c)
+						}
+					}
 					// (d) flags
 					base := outSig(RunReal(pr, copyVars(sc.Vars), env.New(env.Exact, sc.Bal, sc.Meta), nil))
 					for _, fs := range []map[string]struct{}{{}, {"unknown-flag": {}}, {interpreter.ExperimentalOverdraftFunctionFeatureFlag: {}}, {interpreter.ExperimentalOverdraftFunctionFeatureFlag: {}, "unknown-flag": {}}} {
@@ -465,9 +554,17 @@ func runC11(w *mc.Worker) {
 			w.Eval("race-pass", true, fmt.Sprintf("race-reports=%d", n))
 			w.Count("race-pass-runs", int64(strings.Count(out, "race-pass-scenario")))
 			if !strings.Contains(out, "race-pass-done") {
-				w.Count("harness_errors", 1)
-				w.Rep.Notes = append(w.Rep.Notes, "race pass did not finish: "+trunc(out, 500))
-				return
+				if i := strings.Index(out, "fatal error:"); i >= 0 {
+					// e.g. "fatal error: concurrent map writes": the runtime killed the free-running pass
+					line := strings.SplitN(out[i:], "\n", 2)[0]
+					w.Violation("C11.fatal:"+line, "concurrent Runs on one parsed script crashed the process: "+line, 0, Case{Script: "free-running race pass", Observed: trunc(out[i:], 3000)})
+					return
+				}
+				if n == 0 {
+					w.Count("harness_errors", 1)
+					w.Rep.Notes = append(w.Rep.Notes, "race pass did not finish: "+trunc(out, 500))
+					return
+				}
 			}
 			if n > 0 {
 				i := strings.Index(out, "WARNING: DATA RACE")
